@@ -131,7 +131,60 @@ pub fn run_generate_source(source: &str) -> Analysis {
 
 pub fn run_generate(def: &Def) -> Analysis {
     // The derive only needs the enum item; callbacks are referenced by path and never resolved here.
-    run_generate_source(&def.render())
+    let source = def.render();
+    // History: a derive is rarely alone in its process. One definition in four is preceded, on the same thread, by a
+    // look-alike (same enum name, variant names and pattern spellings; another variant order, another ignore(case)
+    // flag, another subpattern body, other priorities or the other source mode), whose result is thrown away: state
+    // that the code generator keeps between two derives (caches keyed by too little, counters, lazily initialised
+    // tables) then shows in the definition under test, which is judged against its own reference as always.
+    let h = source.bytes().fold(0xcbf29ce484222325u64, |h, b| (h ^ b as u64).wrapping_mul(0x100000001b3));
+    if h % 4 == 0 {
+        if let Some(pre) = look_alike(def, (h >> 8) as usize) {
+            let _ = run_generate_source(&pre.render());
+        }
+    }
+    run_generate_source(&source)
+}
+
+/// A definition that is spelled almost like `def` but means something else.
+pub fn look_alike(def: &Def, choice: usize) -> Option<Def> {
+    use vmon::spec::{Lit, PatKind};
+    let mut d = def.clone();
+    for attempt in 0..5 {
+        match (choice + attempt) % 5 {
+            0 if def.variants.len() >= 3 && def.raw_variants.is_empty() => return Some(def.rotated_variants(1 + choice % 2)),
+            1 if !def.pats.is_empty() => {
+                let k = choice % def.pats.len();
+                d.pats[k].ignore_case = !d.pats[k].ignore_case;
+                return Some(d);
+            }
+            2 if !def.subpats.is_empty() => {
+                for (_, body) in d.subpats.iter_mut() {
+                    let mut data = b"(?:".to_vec();
+                    data.extend_from_slice(&body.data);
+                    data.extend_from_slice(b")|[0-9a-fK]");
+                    *body = Lit { bytes: body.bytes, data };
+                }
+                return Some(d);
+            }
+            3 if def.pats.iter().filter(|p| p.kind != PatKind::Skip).count() >= 2 => {
+                let idx: Vec<usize> = (0..def.pats.len()).filter(|&i| def.pats[i].kind != PatKind::Skip).collect();
+                let (a, b) = (idx[choice % idx.len()], idx[(choice + 1) % idx.len()]);
+                let (pa, pb) = (def.pats[a].priority, def.pats[b].priority);
+                if pa != pb {
+                    d.pats[a].priority = pb;
+                    d.pats[b].priority = pa;
+                    return Some(d);
+                }
+            }
+            4 => {
+                d.utf8 = !def.utf8;
+                return Some(d);
+            }
+            _ => {}
+        }
+    }
+    None
 }
 
 pub fn describe_ref_error(e: &RefError) -> String {
